@@ -61,10 +61,13 @@ CanonItem == {Str("direct", 10, 0, 5, 0)}
 \* "auth": every configuration x permission set x ID x password pair x tried password, one canonical item
 AuthQuick == Valid(Mk(Algs(KeyLensQuick), SomePerms, BothIds, {"table"}, {"direct"}))
 AuthFull  == Valid(Mk(Algs(KeyLensFull), AllPerms, BothIds, {"table"}, {"direct"}))
+\* "authpw" (thorough): every configuration x ID x the full set of password pairs, one permission set
+AuthPw == Valid(Mk(Algs(KeyLensFull), OnePerm, BothIds, {"table"}, {"direct"}))
 \* "content": every configuration x ID x physical form x Encrypt placement x every item location, both passwords
 ContentQuick == Valid(Mk(Algs(KeyLensQuick), OnePerm, {"present"}, {"table", "xrefstm"}, {"direct", "indirect"}))
 ContentFull  == Valid(Mk(Algs(KeyLensFull), OnePerm, BothIds, {"table", "xrefstm"}, {"direct", "indirect"}))
 \* "mixed": the full product on reduced sets (thorough tier)
 MixedCfg == Valid(Mk(Algs({40, 128}), {{"print"}, {"modify", "extract"}}, BothIds, {"table", "xrefstm"}, {"direct", "indirect"}))
+MixedTried == {"e", "a", "b", "w", "x", "L2", "n", "N", "N2", "B33"}
 MixedPairs == {<<"a", "b">>, <<"e", "n">>, <<"L", "same">>, <<"N", "P">>}
 ====
